@@ -2,8 +2,10 @@ package rules
 
 import (
 	"fmt"
+	"go/constant"
 	"go/token"
 	"go/types"
+	"sort"
 	"strings"
 
 	"golang.org/x/tools/go/ssa"
@@ -16,15 +18,30 @@ import (
 // RegisterName, once a comparison has established that the stored record or the
 // request is Unique, no path may reach a mutation of the table (map update,
 // store to a record field, delete) — RFC 1002: a unique name never coexists
-// with another registration. Decided on the CFG: from the "is Unique" edge of
-// every comparison with the constant Unique, no mutation is reachable.
+// with another registration. Decided by a path-sensitive walk of the CFG: from
+// every comparison with the constant Unique, under the fact "the comparison
+// found Unique", no mutation (and no call of a helper that mutates) is
+// reachable. The walk evaluates branch conditions that the fact decides —
+// the comparison itself, `conflict := a || b` (φ of booleans), negations — so
+// the test may be written as nested ifs, a switch, or a boolean local; and the
+// comparison may live in a same-package helper (conflicts(stored, requested),
+// an enum-returning classify(…)): the helper is walked from the comparison to
+// its returns and the walk resumes after each call site with the returned
+// constant as a fact. The instance floor is keyed on the two operands the
+// property names — the stored record's type and the requested type must each
+// be compared with Unique — not on the number of comparison expressions.
 //
 // `expiry-gate` (CleanExpiredNames split into a read-locked scan and a
-// write-locked delete without re-checking the TTL): in the methods that remove
-// records without an owner argument, every delete is dominated by the positive
-// outcome of a time comparison on that record's TTL and no unlock of the
-// server mutex can execute between the comparison and the delete (the decision
-// and the removal are one critical section).
+// write-locked delete without re-checking the TTL): from the methods that
+// remove records without an owner argument, every removal reached (delete,
+// clear, maps.DeleteFunc; in the method, its literals and same-package helpers)
+// is decided by a positive expiry test on a record's TTL — now.After(TTL),
+// TTL.Before(now), the negative outcome of TTL.After(now)/now.Before(TTL), the
+// Sub/Since/Until/Compare forms against 0, a boolean helper that is true only
+// under such a test — and no unlock of the server mutex can execute between
+// the test and the removal (the decision and the removal are one critical
+// section). maps.DeleteFunc(names, pred) is such a removal when pred returns
+// true only under a positive expiry test on the record it is given.
 
 func init() {
 	ck := registry["C17"]
@@ -36,30 +53,203 @@ func init() {
 		orig(c)
 		c17ConflictUnique(c)
 		c17ExpiryGate(c)
-		c.R.Explanation += " Extension `conflict-unique`: in RegisterName no table mutation is reachable from the is-Unique outcome of a comparison of the stored type or the requested type with Unique. Extension `expiry-gate`: in the sweeping methods every delete is dominated by a positive TTL comparison on the record and no unlock can run between that comparison and the delete."
+		c.R.Explanation += " Extension `conflict-unique`: in RegisterName (and the same-package helpers it calls) no table mutation is reachable, on a walk that follows the branches the fact decides, from the is-Unique outcome of a comparison of the stored type or the requested type with Unique; both operands must be so compared. Extension `expiry-gate`: from the sweeping methods every removal (delete, clear, maps.DeleteFunc with an expiry predicate) is decided by a positive TTL comparison on the record and no unlock can run between that comparison and the removal."
 	}
 }
 
+func c17IsRecordType(t types.Type) bool {
+	nt, ok := types.Unalias(derefType(t)).(*types.Named)
+	return ok && nt.Obj().Name() == "NameRecord" && nt.Obj().Pkg() != nil && strings.HasSuffix(nt.Obj().Pkg().Path(), c17Pkg)
+}
+
+// c17IsTableMap: a map whose elements are (pointers to) NameRecords.
+func c17IsTableMap(t types.Type) bool {
+	m, ok := t.Underlying().(*types.Map)
+	return ok && c17IsRecordType(m.Elem())
+}
+
+func c17RecordField(fa *ssa.FieldAddr) (string, bool) {
+	if !c17IsRecordType(fa.X.Type()) {
+		return "", false
+	}
+	st, ok := derefType(fa.X.Type()).Underlying().(*types.Struct)
+	if !ok || fa.Field >= st.NumFields() {
+		return "", false
+	}
+	return st.Field(fa.Field).Name(), true
+}
+
+// c17IsMutation recognises the instructions that modify the name table.
 func c17IsMutation(in ssa.Instruction) (string, bool) {
 	switch x := in.(type) {
 	case *ssa.MapUpdate:
-		return "map update", true
+		if c17IsTableMap(x.Map.Type()) {
+			return "map update", true
+		}
 	case *ssa.Store:
-		if fa, ok := x.Addr.(*ssa.FieldAddr); ok {
-			if nt, ok := derefType(fa.X.Type()).(*types.Named); ok && nt.Obj().Name() == "NameRecord" {
+		switch a := x.Addr.(type) {
+		case *ssa.FieldAddr:
+			if name, ok := c17RecordField(a); ok {
 				// stores into a record being built (fresh allocation) are not table mutations
-				if _, fresh := fa.X.(*ssa.Alloc); fresh {
+				if _, fresh := a.X.(*ssa.Alloc); fresh {
 					return "", false
 				}
-				return "store NameRecord." + nt.Underlying().(*types.Struct).Field(fa.Field).Name(), true
+				return "store NameRecord." + name, true
+			}
+		case *ssa.IndexAddr:
+			// record.Owners[i] = x
+			if ld, ok := a.X.(*ssa.UnOp); ok && ld.Op == token.MUL {
+				if fa, ok := ld.X.(*ssa.FieldAddr); ok {
+					if name, ok := c17RecordField(fa); ok {
+						if _, fresh := fa.X.(*ssa.Alloc); !fresh {
+							return "store NameRecord." + name + "[i]", true
+						}
+					}
+				}
 			}
 		}
 	case *ssa.Call:
-		if bi, ok := x.Call.Value.(*ssa.Builtin); ok && bi.Name() == "delete" {
-			return "delete", true
+		if bi, ok := x.Call.Value.(*ssa.Builtin); ok && len(x.Call.Args) > 0 && c17IsTableMap(x.Call.Args[0].Type()) {
+			switch bi.Name() {
+			case "delete":
+				return "delete(names, …)", true
+			case "clear":
+				return "clear(names)", true
+			}
+		}
+		if c17CalleeName(x.Call.StaticCallee()) == "maps.DeleteFunc" && len(x.Call.Args) > 0 && c17IsTableMap(x.Call.Args[0].Type()) {
+			return "maps.DeleteFunc(names, …)", true
 		}
 	}
 	return "", false
+}
+
+// ---------------------------------------------------------------------------
+// conflict-unique
+
+type c17Facts map[ssa.Value]constant.Value
+
+// c17Eval evaluates v to a constant under facts; φ-nodes of block b are resolved
+// through the edge from pred.
+func c17Eval(v ssa.Value, facts c17Facts, b, pred *ssa.BasicBlock, d int) (constant.Value, bool) {
+	if d > 8 {
+		return nil, false
+	}
+	if c, ok := facts[v]; ok {
+		return c, true
+	}
+	switch x := v.(type) {
+	case *ssa.Const:
+		if x.Value != nil {
+			return x.Value, true
+		}
+	case *ssa.UnOp:
+		if x.Op == token.NOT {
+			if c, ok := c17Eval(x.X, facts, b, pred, d+1); ok && c.Kind() == constant.Bool {
+				return constant.MakeBool(!constant.BoolVal(c)), true
+			}
+		}
+	case *ssa.BinOp:
+		if x.Op == token.EQL || x.Op == token.NEQ {
+			l, lok := c17Eval(x.X, facts, b, pred, d+1)
+			r, rok := c17Eval(x.Y, facts, b, pred, d+1)
+			if lok && rok && l.Kind() == r.Kind() && l.Kind() != constant.Unknown {
+				return constant.MakeBool(constant.Compare(l, x.Op, r)), true
+			}
+		}
+	case *ssa.Phi:
+		if b != nil && pred != nil && x.Block() == b {
+			for i, p := range b.Preds {
+				if p == pred && i < len(x.Edges) {
+					return c17Eval(x.Edges[i], facts, nil, nil, d+1)
+				}
+			}
+		}
+	case *ssa.ChangeType:
+		return c17Eval(x.X, facts, b, pred, d+1)
+	case *ssa.Convert:
+		return c17Eval(x.X, facts, b, pred, d+1)
+	}
+	return nil, false
+}
+
+type c17RetVal struct {
+	known bool
+	val   constant.Value
+}
+
+type c17Explorer struct {
+	rel       func(token.Pos) string
+	mutatesFn func(*ssa.Function) bool // a same-package declared callee that (transitively) modifies the table
+}
+
+// explore walks fn from `start` (instructions after `after` in the first block)
+// under facts and returns the mutations reached and the evaluated first results
+// of the returns reached.
+func (e *c17Explorer) explore(fn *ssa.Function, start *ssa.BasicBlock, after ssa.Instruction, facts c17Facts) (hits []string, rets []c17RetVal) {
+	type item struct{ b, pred *ssa.BasicBlock }
+	seen := map[item]bool{}
+	work := []item{{start, nil}}
+	seen[work[0]] = true
+	hitSeen := map[ssa.Instruction]bool{}
+	push := func(b, pred *ssa.BasicBlock) {
+		it := item{b, pred}
+		if !seen[it] {
+			seen[it] = true
+			work = append(work, it)
+		}
+	}
+	for len(work) > 0 {
+		it := work[len(work)-1]
+		work = work[:len(work)-1]
+		skipping := it.b == start && it.pred == nil && after != nil
+		for _, in := range it.b.Instrs {
+			if skipping {
+				if in == after {
+					skipping = false
+				}
+				continue
+			}
+			if hitSeen[in] {
+				continue
+			}
+			if w, ok := c17IsMutation(in); ok {
+				hitSeen[in] = true
+				hits = append(hits, w+" at "+e.rel(in.Pos()))
+			} else if ci, ok := in.(ssa.CallInstruction); ok {
+				if g := ci.Common().StaticCallee(); g != nil && e.mutatesFn(g) {
+					hitSeen[in] = true
+					hits = append(hits, "call of "+g.Name()+", which modifies the table, at "+e.rel(in.Pos()))
+				}
+			}
+		}
+		switch t := it.b.Instrs[len(it.b.Instrs)-1].(type) {
+		case *ssa.If:
+			if c, ok := c17Eval(t.Cond, facts, it.b, it.pred, 0); ok && c.Kind() == constant.Bool {
+				if constant.BoolVal(c) {
+					push(it.b.Succs[0], it.b)
+				} else {
+					push(it.b.Succs[1], it.b)
+				}
+			} else {
+				push(it.b.Succs[0], it.b)
+				push(it.b.Succs[1], it.b)
+			}
+		case *ssa.Return:
+			rv := c17RetVal{}
+			if len(t.Results) == 1 {
+				if c, ok := c17Eval(t.Results[0], facts, it.b, it.pred, 0); ok {
+					rv = c17RetVal{true, c}
+				}
+			}
+			rets = append(rets, rv)
+		default:
+			for _, s := range it.b.Succs {
+				push(s, it.b)
+			}
+		}
+	}
+	return hits, rets
 }
 
 func c17ConflictUnique(c *Ctx) {
@@ -81,63 +271,531 @@ func c17ConflictUnique(c *Ctx) {
 		k, ok := v.(*ssa.Const)
 		return ok && k.Value != nil && types.Identical(k.Type(), uq.Type()) && k.Value.ExactString() == uq.Val().ExactString()
 	}
+	// the functions RegisterName can reach in its package (literals and helpers)
+	w := c17NewWalker(p, fn.Pkg, func(*ssa.CallCommon, *ssa.Function, any) any { return nil })
+	w.walk(fn, nil, nil, nil, 0)
+	var scope []*ssa.Function
+	for g := range w.reached {
+		scope = append(scope, g)
+	}
+	sort.Slice(scope, func(i, j int) bool { return scope[i].Pos() < scope[j].Pos() })
+	mutMemo := map[*ssa.Function]bool{}
+	mutates := func(g *ssa.Function) bool {
+		if g.Blocks == nil || !p.InModule(g) || g.Pkg != fn.Pkg || g.Parent() != nil {
+			return false
+		}
+		if v, ok := mutMemo[g]; ok {
+			return v
+		}
+		mutMemo[g] = false
+		w2 := c17NewWalker(p, fn.Pkg, func(*ssa.CallCommon, *ssa.Function, any) any { return nil })
+		w2.walk(g, nil, nil, nil, 0)
+		mutMemo[g] = len(w2.muts) > 0
+		return mutMemo[g]
+	}
+	ex := &c17Explorer{rel: p.Rel, mutatesFn: mutates}
+	// call sites of the helpers, inside the scope
+	callers := map[*ssa.Function][]*ssa.Call{}
+	for _, g := range scope {
+		for _, b := range g.Blocks {
+			for _, in := range b.Instrs {
+				if call, ok := in.(*ssa.Call); ok {
+					if h := call.Call.StaticCallee(); h != nil && w.reached[h] && h.Parent() == nil {
+						callers[h] = append(callers[h], call)
+					}
+				}
+			}
+		}
+	}
+	// which operand of the property a compared value is: the stored record's type or the requested type
+	var operand func(v ssa.Value, g *ssa.Function, d int) string
+	operand = func(v ssa.Value, g *ssa.Function, d int) string {
+		switch x := v.(type) {
+		case *ssa.Parameter:
+			if x.Parent() == fn {
+				return "requested type"
+			}
+			if d < 3 {
+				kinds := map[string]bool{}
+				for i, prm := range x.Parent().Params {
+					if prm != x {
+						continue
+					}
+					for _, call := range callers[x.Parent()] {
+						if i < len(call.Call.Args) {
+							kinds[operand(call.Call.Args[i], call.Parent(), d+1)] = true
+						}
+					}
+				}
+				if len(kinds) == 1 {
+					for k := range kinds {
+						return k
+					}
+				}
+			}
+		case *ssa.UnOp:
+			if x.Op == token.MUL {
+				if fa, ok := x.X.(*ssa.FieldAddr); ok {
+					if name, ok := c17RecordField(fa); ok && name == "Type" {
+						return "stored record type"
+					}
+				}
+				// a captured variable holding one value
+				if al, ok := c17UnitOf(g).resolve(x.X).(*ssa.Alloc); ok && d < 3 {
+					if sts := c17UnitOf(g).stores[al]; len(sts) == 1 {
+						return operand(sts[0].Val, g, d+1)
+					}
+				}
+			}
+		case *ssa.Field:
+			if c17IsRecordType(x.X.Type()) {
+				if st, ok := x.X.Type().Underlying().(*types.Struct); ok && st.Field(x.Field).Name() == "Type" {
+					return "stored record type"
+				}
+			}
+		case *ssa.ChangeType:
+			return operand(x.X, g, d+1)
+		}
+		return "a value"
+	}
+
 	n := 0
 	ord := 0
-	var blocks []*ssa.BasicBlock
-	for _, f := range withClosures(fn) {
-		blocks = append(blocks, f.Blocks...)
+	judged := map[string]bool{}
+	for _, g := range scope {
+		for _, b := range g.Blocks {
+			for _, in := range b.Instrs {
+				bo, ok := in.(*ssa.BinOp)
+				if !ok || (bo.Op != token.EQL && bo.Op != token.NEQ) || !(isUnique(bo.X) || isUnique(bo.Y)) {
+					continue
+				}
+				n++
+				ord++
+				other := bo.X
+				if isUnique(bo.X) {
+					other = bo.Y
+				}
+				what := operand(other, g, 0)
+				judged[what] = true
+				where := ""
+				if c17TopOf(g) != fn {
+					where = " (in " + c17TopOf(g).Name() + ")"
+				}
+				construct := fmt.Sprintf("%s: after %s == Unique (#%d)%s the table is not modified", p.FuncName(fn), what, ord, where)
+				facts := c17Facts{bo: constant.MakeBool(bo.Op == token.EQL)}
+				hits := c17ExploreUp(ex, g, b, bo, facts, callers, fn, 0)
+				if len(hits) == 0 {
+					r.OK(rule, construct, p.Rel(bo.Pos()), "every path from the is-Unique outcome returns without touching the table")
+				} else {
+					r.Fail(rule, construct, p.Rel(bo.Pos()), "a registration that conflicts with a unique name can still reach "+strings.Join(uniqStrings(hits), ", ")+": an existing registration (a whole group, or another node's unique name) is overwritten")
+				}
+			}
+		}
 	}
-	for _, b := range blocks {
-		iff, ok := b.Instrs[len(b.Instrs)-1].(*ssa.If)
+	// both operands of the conflict matrix must be tested (however the test is written)
+	for _, k := range []string{"stored record type", "requested type"} {
+		construct := fmt.Sprintf("%s: the %s is compared with Unique", p.FuncName(fn), k)
+		if judged[k] {
+			r.OK(rule, construct, p.Rel(fn.Pos()), "a comparison of this operand with Unique was found and judged")
+		} else {
+			r.Fail(rule, construct, p.Rel(fn.Pos()), "no comparison of the "+k+" with the constant Unique was recognised in RegisterName or the helpers it calls: a unique name is not protected against this side of the conflict matrix (or the rule no longer matches the shape of the test)")
+		}
+	}
+	// one instance per operand of the conflict matrix (stored type, requested type) plus the
+	// comparisons found; how many comparison expressions there are is an artefact of the code
+	r.Floor(rule, 2)
+	r.Extra["conflict_unique_tests"] = n
+}
+
+// c17ExploreUp explores from an instruction under facts; when the function is a
+// helper, the walk resumes after every call site with the returned constant.
+func c17ExploreUp(ex *c17Explorer, g *ssa.Function, b *ssa.BasicBlock, after ssa.Instruction, facts c17Facts, callers map[*ssa.Function][]*ssa.Call, entry *ssa.Function, depth int) []string {
+	hits, rets := ex.explore(g, b, after, facts)
+	top := c17TopOf(g)
+	if top == entry || depth >= 3 {
+		return hits
+	}
+	if g != top {
+		// a literal inside a helper: its result is not followed
+		rets = []c17RetVal{{}}
+	}
+	sites := callers[top]
+	if len(sites) == 0 {
+		return hits
+	}
+	// distinct outcomes of the helper under the fact
+	outcomes := map[string]c17RetVal{}
+	for _, rv := range rets {
+		k := "?"
+		if rv.known {
+			k = rv.val.ExactString()
+		}
+		outcomes[k] = rv
+	}
+	for _, call := range sites {
+		for _, rv := range outcomes {
+			f2 := c17Facts{}
+			if rv.known {
+				f2[call] = rv.val
+			}
+			hits = append(hits, c17ExploreUp(ex, call.Parent(), call.Block(), call, f2, callers, entry, depth+1)...)
+		}
+	}
+	return hits
+}
+
+// ---------------------------------------------------------------------------
+// expiry-gate
+
+func c17IsTTL(v ssa.Value, base ssa.Value) bool {
+	switch x := v.(type) {
+	case *ssa.UnOp:
+		if x.Op != token.MUL {
+			return false
+		}
+		if fa, ok := x.X.(*ssa.FieldAddr); ok {
+			if name, ok := c17RecordField(fa); ok && name == "TTL" {
+				return base == nil || fa.X == base
+			}
+		}
+	case *ssa.Field:
+		if c17IsRecordType(x.X.Type()) {
+			if st, ok := x.X.Type().Underlying().(*types.Struct); ok && st.Field(x.Field).Name() == "TTL" {
+				if base == nil {
+					return true
+				}
+				if ld, ok := x.X.(*ssa.UnOp); ok && ld.Op == token.MUL {
+					return ld.X == base
+				}
+			}
+		}
+	}
+	return false
+}
+
+// c17TTLAtom: +1 when v being true means "the record's TTL has passed", -1 when
+// it means "the TTL has not passed", 0 otherwise. base restricts the record.
+func c17TTLAtom(v ssa.Value, base ssa.Value) int {
+	ttl := func(x ssa.Value) bool { return c17IsTTL(x, base) }
+	// sign of q = now − TTL that a call result carries: +1 the result grows with q, -1 it shrinks
+	signOf := func(call *ssa.Call) (int, bool) {
+		a := call.Call.Args
+		switch c17CalleeName(call.Call.StaticCallee()) {
+		case "time.Since":
+			if len(a) == 1 && ttl(a[0]) {
+				return +1, false
+			}
+		case "time.Until":
+			if len(a) == 1 && ttl(a[0]) {
+				return -1, false
+			}
+		case "(time.Time).Sub":
+			if len(a) == 2 && ttl(a[1]) && !ttl(a[0]) {
+				return +1, false
+			}
+			if len(a) == 2 && ttl(a[0]) && !ttl(a[1]) {
+				return -1, false
+			}
+		case "(time.Time).Compare":
+			if len(a) == 2 && ttl(a[1]) && !ttl(a[0]) {
+				return +1, true
+			}
+			if len(a) == 2 && ttl(a[0]) && !ttl(a[1]) {
+				return -1, true
+			}
+		}
+		return 0, false
+	}
+	switch x := v.(type) {
+	case *ssa.Call:
+		a := x.Call.Args
+		switch c17CalleeName(x.Call.StaticCallee()) {
+		case "(time.Time).After":
+			if len(a) == 2 && ttl(a[1]) && !ttl(a[0]) {
+				return +1 // now.After(TTL)
+			}
+			if len(a) == 2 && ttl(a[0]) && !ttl(a[1]) {
+				return -1 // TTL.After(now)
+			}
+		case "(time.Time).Before":
+			if len(a) == 2 && ttl(a[0]) && !ttl(a[1]) {
+				return +1 // TTL.Before(now)
+			}
+			if len(a) == 2 && ttl(a[1]) && !ttl(a[0]) {
+				return -1 // now.Before(TTL)
+			}
+		}
+	case *ssa.BinOp:
+		if _, isCmp := c17Mirror[x.Op]; !isCmp {
+			return 0
+		}
+		q, kv := x.X, x.Y
+		op := x.Op
+		if _, isK := c17IntConst(kv); !isK {
+			q, kv = x.Y, x.X
+			op = c17Mirror[x.Op]
+		}
+		k, isK := c17IntConst(kv)
+		call, isCall := q.(*ssa.Call)
+		if !isK || !isCall {
+			return 0
+		}
+		s, isCompare := signOf(call)
+		if s == 0 {
+			return 0
+		}
+		dir := 0
+		switch {
+		case k == 0 && (op == token.GTR || op == token.GEQ):
+			dir = +1
+		case k == 0 && (op == token.LSS || op == token.LEQ):
+			dir = -1
+		case isCompare && k == 1 && (op == token.EQL || op == token.GEQ):
+			dir = +1
+		case isCompare && k == -1 && (op == token.EQL || op == token.LEQ):
+			dir = -1
+		}
+		return dir * s
+	}
+	return 0
+}
+
+type c17ExpiryTest struct {
+	p interface{ InModule(*ssa.Function) bool }
+}
+
+// expiredTrue: v is true only under a positive expiry test.
+func (t *c17ExpiryTest) expiredTrue(v ssa.Value, base ssa.Value, seen map[ssa.Value]bool, depth int) bool {
+	if seen[v] {
+		return true
+	}
+	seen[v] = true
+	if c17TTLAtom(v, base) > 0 {
+		return true
+	}
+	switch x := v.(type) {
+	case *ssa.UnOp:
+		if x.Op == token.NOT {
+			return c17TTLAtom(x.X, base) < 0
+		}
+	case *ssa.Phi:
+		for i, e := range x.Edges {
+			if val, isK := c17BoolConst(e); isK && !val {
+				continue
+			}
+			if t.blockGated(x.Block().Preds[i], base, depth) != nil {
+				continue
+			}
+			if _, isK := c17BoolConst(e); isK {
+				return false
+			}
+			if !t.expiredTrue(e, base, seen, depth) {
+				return false
+			}
+		}
+		return true
+	case *ssa.BinOp:
+		if x.Op == token.LAND || x.Op == token.AND {
+			return t.expiredTrue(x.X, base, seen, depth) || t.expiredTrue(x.Y, base, seen, depth)
+		}
+	case *ssa.Call:
+		// record.expired(now) / isExpired(record, now): a same-module boolean helper
+		f := x.Call.StaticCallee()
+		if f != nil && f.Blocks != nil && t.p.InModule(f) && depth < c17HelperDepth {
+			var cbase ssa.Value
+			if base != nil {
+				for k, a := range x.Call.Args {
+					if a == base && k < len(f.Params) {
+						cbase = f.Params[k]
+					}
+				}
+				if cbase == nil {
+					return false
+				}
+			}
+			return t.returnsExpiredTrue(f, cbase, depth+1)
+		}
+	}
+	return false
+}
+
+func (t *c17ExpiryTest) returnsExpiredTrue(g *ssa.Function, base ssa.Value, depth int) bool {
+	n := 0
+	for _, b := range g.Blocks {
+		ret, ok := b.Instrs[len(b.Instrs)-1].(*ssa.Return)
 		if !ok {
 			continue
 		}
-		bo, ok := iff.Cond.(*ssa.BinOp)
-		if !ok || (bo.Op != token.EQL && bo.Op != token.NEQ) || !(isUnique(bo.X) || isUnique(bo.Y)) {
-			continue
+		if len(ret.Results) != 1 {
+			return false
 		}
 		n++
-		ord++
-		start := b.Succs[0]
-		if bo.Op == token.NEQ {
-			start = b.Succs[1]
+		rv := ret.Results[0]
+		if val, isK := c17BoolConst(rv); isK && !val {
+			continue
 		}
-		what := "requested type"
-		other := bo.X
-		if isUnique(bo.X) {
-			other = bo.Y
+		if t.blockGated(b, base, depth) != nil {
+			continue
 		}
-		if _, isParam := other.(*ssa.Parameter); !isParam {
-			what = "stored record type"
+		if _, isK := c17BoolConst(rv); isK {
+			return false
 		}
-		construct := fmt.Sprintf("%s: after %s == Unique (#%d) the table is not modified", p.FuncName(fn), what, ord)
-		// reachability from the is-Unique edge
-		seen := map[*ssa.BasicBlock]bool{start: true}
-		work := []*ssa.BasicBlock{start}
-		var hits []string
-		for len(work) > 0 {
-			x := work[len(work)-1]
-			work = work[:len(work)-1]
-			for _, in := range x.Instrs {
-				if w, ok := c17IsMutation(in); ok {
-					hits = append(hits, w+" at "+p.Rel(in.Pos()))
-				}
-			}
-			for _, s := range x.Succs {
-				if !seen[s] {
-					seen[s] = true
-					work = append(work, s)
-				}
-			}
-		}
-		if len(hits) == 0 {
-			r.OK(rule, construct, p.Rel(iff.Cond.Pos()), "every path from the is-Unique outcome returns without touching the table")
-		} else {
-			r.Fail(rule, construct, p.Rel(iff.Cond.Pos()), "a registration that conflicts with a unique name can still reach "+strings.Join(hits, ", ")+": an existing registration (a whole group, or another node's unique name) is overwritten")
+		if !t.expiredTrue(rv, base, map[ssa.Value]bool{}, depth) {
+			return false
 		}
 	}
-	r.Floor(rule, 2)
-	r.Extra["conflict_unique_tests"] = n
+	return n > 0
+}
+
+// blockGated returns the block whose branch decides "expired" on the way to b, or nil.
+func (t *c17ExpiryTest) blockGated(b *ssa.BasicBlock, base ssa.Value, depth int) *ssa.BasicBlock {
+	for x := b; x != nil; x = x.Idom() {
+		d := x.Idom()
+		if d == nil {
+			break
+		}
+		if len(x.Preds) != 1 || x.Preds[0] != d {
+			continue
+		}
+		iff, ok := d.Instrs[len(d.Instrs)-1].(*ssa.If)
+		if !ok || d.Succs[0] == d.Succs[1] {
+			continue
+		}
+		cond, neg := c17NormCond(iff.Cond)
+		positive := (d.Succs[0] == x) != neg
+		if positive && t.expiredTrue(cond, base, map[ssa.Value]bool{}, depth) {
+			return d
+		}
+		if !positive && c17TTLAtom(cond, base) < 0 {
+			return d
+		}
+	}
+	return nil
+}
+
+// c17CollectedDelete recognises
+//
+//	var expired []string
+//	for name, record := range n.names { if now.After(record.TTL) { expired = append(expired, name) } }
+//	for _, name := range expired { delete(n.names, name) }
+//
+// inside one critical section. ok: decided positively; why != "": decided negatively (an
+// unlock separates the scan from the delete); both zero: the shape is not this one.
+func c17CollectedDelete(t *c17ExpiryTest, in ssa.Instruction, rel func(token.Pos) string) (ok bool, why string) {
+	call, isCall := in.(*ssa.Call)
+	if !isCall || len(call.Call.Args) != 2 {
+		return false, ""
+	}
+	// key = S[i] of a ranged local slice
+	key := call.Call.Args[1]
+	ld, isLd := key.(*ssa.UnOp)
+	if !isLd || ld.Op != token.MUL {
+		return false, ""
+	}
+	ia, isIA := ld.X.(*ssa.IndexAddr)
+	if !isIA {
+		return false, ""
+	}
+	if _, isSlice := ia.X.Type().Underlying().(*types.Slice); !isSlice {
+		return false, ""
+	}
+	// every version of the slice: nil / make / φ / append(version, …)
+	var appends []*ssa.Call
+	seen := map[ssa.Value]bool{}
+	var visit func(v ssa.Value) bool
+	visit = func(v ssa.Value) bool {
+		if seen[v] {
+			return true
+		}
+		seen[v] = true
+		switch x := v.(type) {
+		case *ssa.Const:
+			return x.Value == nil
+		case *ssa.MakeSlice:
+			if n, isK := c17IntConst(x.Len); isK && n == 0 {
+				return true
+			}
+			return false
+		case *ssa.Phi:
+			for _, e := range x.Edges {
+				if !visit(e) {
+					return false
+				}
+			}
+			return true
+		case *ssa.Call:
+			if bi, isB := x.Call.Value.(*ssa.Builtin); isB && bi.Name() == "append" && len(x.Call.Args) >= 1 {
+				appends = append(appends, x)
+				return visit(x.Call.Args[0])
+			}
+		}
+		return false
+	}
+	if !visit(ia.X) || len(appends) == 0 {
+		return false, ""
+	}
+	fn := call.Parent()
+	for _, ap := range appends {
+		if ap.Parent() != fn {
+			return false, ""
+		}
+		tb := t.blockGated(ap.Block(), nil, 0)
+		if tb == nil {
+			return false, "the delete takes its keys from a list that is also extended at " + rel(ap.Pos()) + " without a positive time comparison on the record's TTL: a record is removed on a decision that is not its expiry"
+		}
+		if u := c17UnlockBetween(fn, tb, call.Block(), rel); u != "" {
+			return false, "the delete takes its keys from a list filled under an expiry test, but the mutex can be released at " + u + " between that test and the delete: a registration or refresh that lands in the gap is wiped (the delete is not dominated by a positive time comparison of its own)"
+		}
+	}
+	return true, ""
+}
+
+func c17IsUnlock(in ssa.Instruction) bool {
+	cc, ok := in.(*ssa.Call)
+	if !ok {
+		return false
+	}
+	f := cc.Call.StaticCallee()
+	if f == nil {
+		return false
+	}
+	switch f.String() {
+	case "(*sync.RWMutex).Unlock", "(*sync.RWMutex).RUnlock", "(*sync.Mutex).Unlock":
+		return true
+	}
+	return false
+}
+
+func c17ReachFrom(from *ssa.BasicBlock) map[*ssa.BasicBlock]bool {
+	seen := map[*ssa.BasicBlock]bool{from: true}
+	work := []*ssa.BasicBlock{from}
+	for len(work) > 0 {
+		x := work[len(work)-1]
+		work = work[:len(work)-1]
+		for _, s := range x.Succs {
+			if !seen[s] {
+				seen[s] = true
+				work = append(work, s)
+			}
+		}
+	}
+	return seen
+}
+
+// c17UnlockBetween: an unlock in a block that lies on a path from `from` to `to` (both inclusive).
+func c17UnlockBetween(fn *ssa.Function, from, to *ssa.BasicBlock, rel func(token.Pos) string) string {
+	fromSet := c17ReachFrom(from)
+	for _, x := range fn.Blocks {
+		if !fromSet[x] || !c17ReachFrom(x)[to] {
+			continue
+		}
+		for _, y := range x.Instrs {
+			if c17IsUnlock(y) {
+				return rel(y.Pos())
+			}
+		}
+	}
+	return ""
 }
 
 func c17ExpiryGate(c *Ctx) {
@@ -154,123 +812,145 @@ func c17ExpiryGate(c *Ctx) {
 		r.Undecided(rule, "NetBIOSNameServer", "", "type not found")
 		return
 	}
+	test := &c17ExpiryTest{p: p}
+	noCtx := func(*ssa.CallCommon, *ssa.Function, any) any { return nil }
 	ms := types.NewMethodSet(types.NewPointer(tn.Type()))
-	n := 0
+	hasOwner := func(fn *ssa.Function) bool {
+		for _, prm := range fn.Params[1:] {
+			if isIPType(prm.Type()) {
+				return true
+			}
+		}
+		return false
+	}
+	// entries: exported methods without an owner argument; then the unexported ones no
+	// exported method reaches (a helper is judged on the way from the methods that call it)
+	var entries, unexp []*ssa.Function
+	reachedAny := map[*ssa.Function]bool{}
 	for i := 0; i < ms.Len(); i++ {
 		fn := p.Func(rel, "NetBIOSNameServer", ms.At(i).Obj().Name())
 		if fn == nil || fn.Blocks == nil {
 			continue
 		}
-		hasOwner := false
-		for _, prm := range fn.Params[1:] {
-			if isIPType(prm.Type()) {
-				hasOwner = true
+		if ms.At(i).Obj().Exported() {
+			w := c17NewWalker(p, fn.Pkg, noCtx)
+			w.walk(fn, nil, nil, nil, 0)
+			for g := range w.reached {
+				if g != fn {
+					reachedAny[g] = true
+				}
 			}
+			if !hasOwner(fn) {
+				entries = append(entries, fn)
+			}
+		} else if !hasOwner(fn) {
+			unexp = append(unexp, fn)
 		}
-		if hasOwner {
-			continue
+	}
+	for _, fn := range unexp {
+		if !reachedAny[fn] {
+			entries = append(entries, fn)
 		}
+	}
+	n := 0
+	for _, method := range entries {
+		w := c17NewWalker(p, method.Pkg, noCtx)
+		w.walk(method, nil, nil, nil, 0)
+		sort.SliceStable(w.muts, func(i, j int) bool { return w.muts[i].in.Pos() < w.muts[j].in.Pos() })
 		ord := 0
-		method := fn
-		for _, fn := range withClosures(method) {
-			for _, b := range fn.Blocks {
-				for _, in := range b.Instrs {
-					call, ok := in.(*ssa.Call)
-					if !ok {
-						continue
+		for _, m := range w.muts {
+			removal := strings.HasPrefix(m.what, "delete(") || strings.HasPrefix(m.what, "clear(") || strings.HasPrefix(m.what, "maps.DeleteFunc(")
+			if !removal {
+				continue
+			}
+			n++
+			ord++
+			via := ""
+			if m.via != "" {
+				via = " (via " + m.via + ")"
+			}
+			construct := fmt.Sprintf("%s: delete #%d%s decided and executed in one critical section", p.FuncName(method), ord, via)
+			pos := p.Rel(m.in.Pos())
+			if strings.HasPrefix(m.what, "maps.DeleteFunc(") {
+				call := m.in.(*ssa.Call)
+				var pred *ssa.Function
+				if len(call.Call.Args) == 2 {
+					if mc, ok := c17UnitOf(call.Parent()).resolve(call.Call.Args[1]).(*ssa.MakeClosure); ok {
+						pred, _ = mc.Fn.(*ssa.Function)
 					}
-					bi, ok := call.Call.Value.(*ssa.Builtin)
-					if !ok || bi.Name() != "delete" {
-						continue
-					}
-					n++
-					ord++
-					construct := fmt.Sprintf("%s: delete #%d decided and executed in one critical section", p.FuncName(method), ord)
-					// dominating positive TTL comparison
-					var test *ssa.BasicBlock
-					for y := b; y != nil; y = y.Idom() {
-						d := y.Idom()
-						if d == nil || len(y.Preds) != 1 || y.Preds[0] != d {
-							continue
-						}
-						iff, ok := d.Instrs[len(d.Instrs)-1].(*ssa.If)
-						if !ok || d.Succs[0] != y {
-							continue
-						}
-						if ttlComparison(iff.Cond) {
-							test = d
-							break
-						}
-					}
-					if test == nil {
-						r.Fail(rule, construct, p.Rel(call.Pos()), "the delete is not dominated by the positive outcome of a time comparison on the record's TTL: a record is removed on a decision that was not taken at this point (stale scan result, or no expiry test at all)")
-						continue
-					}
-					// no unlock between the test and the delete
-					var unlock string
-					reach := func(from *ssa.BasicBlock) map[*ssa.BasicBlock]bool {
-						seen := map[*ssa.BasicBlock]bool{from: true}
-						work := []*ssa.BasicBlock{from}
-						for len(work) > 0 {
-							x := work[len(work)-1]
-							work = work[:len(work)-1]
-							for _, s := range x.Succs {
-								if !seen[s] {
-									seen[s] = true
-									work = append(work, s)
-								}
-							}
-						}
-						return seen
-					}
-					fromTest := reach(test)
-					for _, x := range fn.Blocks {
-						if !fromTest[x] || !reach(x)[b] {
-							continue
-						}
-						for _, y := range x.Instrs {
-							if cc, ok := y.(*ssa.Call); ok {
-								if f := cc.Call.StaticCallee(); f != nil && (f.String() == "(*sync.RWMutex).Unlock" || f.String() == "(*sync.RWMutex).RUnlock" || f.String() == "(*sync.Mutex).Unlock") {
-									unlock = p.Rel(cc.Pos())
-								}
+				}
+				switch {
+				case pred == nil || pred.Blocks == nil || len(pred.Params) != 2:
+					r.Fail(rule, construct, pos, "maps.DeleteFunc removes the records its predicate selects, and the predicate is not a function literal whose decision can be read: the removal is not shown to be decided by an expiry test")
+				case !test.returnsExpiredTrue(pred, pred.Params[1], 0):
+					r.Fail(rule, construct, pos, "the predicate given to maps.DeleteFunc can return true without a positive time comparison on the TTL of the record it was given: a record is removed on a decision that is not its expiry")
+				default:
+					unlock := ""
+					for _, b := range pred.Blocks {
+						for _, in := range b.Instrs {
+							if c17IsUnlock(in) {
+								unlock = p.Rel(in.Pos())
 							}
 						}
 					}
 					if unlock != "" {
-						r.Fail(rule, construct, p.Rel(call.Pos()), "the mutex can be released at "+unlock+" between the expiry test and the delete: a registration or refresh that lands in the gap is wiped")
+						r.Fail(rule, construct, pos, "the predicate releases the mutex at "+unlock+" between its expiry test and the removal")
 					} else {
-						r.OK(rule, construct, p.Rel(call.Pos()), "dominated by a positive TTL comparison; no unlock between the comparison and the delete")
+						r.OK(rule, construct, pos, "maps.DeleteFunc with a predicate that is true only under a positive TTL comparison on the record it is given; test and removal happen inside one call")
 					}
 				}
+				continue
 			}
+			// the innermost frame whose block is decided by an expiry test
+			gate := -1
+			var testBlock *ssa.BasicBlock
+			for i := len(m.frames) - 1; i >= 0; i-- {
+				if tb := test.blockGated(m.frames[i].b, nil, 0); tb != nil {
+					gate, testBlock = i, tb
+					break
+				}
+			}
+			if gate < 0 {
+				// collect-then-delete under one lock: the keys come from a local slice that only
+				// grows under a positive expiry test, and the mutex is not released in between
+				if ok, why := c17CollectedDelete(test, m.in, p.Rel); ok {
+					r.OK(rule, construct, pos, "the deleted keys range over a local slice that is appended to only under a positive TTL comparison; no unlock between those comparisons and the delete")
+					continue
+				} else if why != "" {
+					r.Fail(rule, construct, pos, why)
+					continue
+				}
+				r.Fail(rule, construct, pos, "the delete is not dominated by the positive outcome of a time comparison on the record's TTL: a record is removed on a decision that was not taken at this point (stale scan result, or no expiry test at all)")
+				continue
+			}
+			unlock := c17UnlockBetween(m.frames[gate].fn, testBlock, m.frames[gate].b, p.Rel)
+			for i := gate + 1; i < len(m.frames) && unlock == ""; i++ {
+				f := m.frames[i]
+				if len(f.fn.Blocks) > 0 {
+					unlock = c17UnlockBetween(f.fn, f.fn.Blocks[0], f.b, p.Rel)
+				}
+			}
+			if unlock != "" {
+				r.Fail(rule, construct, pos, "the mutex can be released at "+unlock+" between the expiry test and the delete: a registration or refresh that lands in the gap is wiped")
+			} else {
+				r.OK(rule, construct, pos, "dominated by a positive TTL comparison; no unlock between the comparison and the delete")
+			}
+		}
+	}
+	// CleanExpiredNames is the sweeping operation the property names: it must still remove something
+	if fn := p.Func(rel, "NetBIOSNameServer", "CleanExpiredNames"); fn != nil {
+		found := false
+		for _, o := range r.Obls {
+			if o.Rule == rule && strings.HasPrefix(o.Construct, p.FuncName(fn)+":") {
+				found = true
+			}
+		}
+		if !found {
+			r.Undecided(rule, p.FuncName(fn)+": removals of expired records", p.Rel(fn.Pos()), "no removal from the table was recognised in or under the sweeping method: the rule no longer matches its shape")
 		}
 	}
 	r.Floor(rule, 1)
 	r.Extra["expiry_gated_deletes"] = n
-}
-
-// ttlComparison: cond is time.After/Before involving a load of NameRecord.TTL.
-func ttlComparison(v ssa.Value) bool {
-	call, ok := v.(*ssa.Call)
-	if !ok {
-		return false
-	}
-	f := call.Call.StaticCallee()
-	if f == nil || (f.String() != "(time.Time).After" && f.String() != "(time.Time).Before") {
-		return false
-	}
-	for _, a := range call.Call.Args {
-		if u, ok := a.(*ssa.UnOp); ok {
-			if fa, ok := u.X.(*ssa.FieldAddr); ok {
-				if nt, ok := derefType(fa.X.Type()).(*types.Named); ok && nt.Obj().Name() == "NameRecord" {
-					if nt.Underlying().(*types.Struct).Field(fa.Field).Name() == "TTL" {
-						return true
-					}
-				}
-			}
-		}
-	}
-	return false
 }
 
 func withClosures(fn *ssa.Function) []*ssa.Function {
